@@ -1538,7 +1538,12 @@ class StorageBackendBase(StorageBackend, ABC):
                     "Metadata shows metadata should exist with data, but could "
                     "not retrieve Memento: {}".format(fn_with_arg_hash)
                 )
-            result = self._data_source.input_metadata(memento.content_key, key)
+            try:
+                result = self._data_source.input_metadata(memento.content_key, key)
+            except FileNotFoundError:
+                # The metadata was stored with an earlier result of this call; the result
+                # stored now has none under this key
+                result = None
 
         return result
 
